@@ -151,20 +151,40 @@ func suiteC01(s *Suite, rng *Rng, tier string) {
 	if tier == "thorough" {
 		keys = append(keys, makeKey(2048, 0, 7, rng, false))
 	}
+	rkeys := []*KeyPair{makeKey(256, 0, 7, rng, true), makeKey(1024, 0, 7, rng, true)}
 	smallLeft := 2
 	for round := 0; round < rounds; round++ {
 		kp := keys[round%len(keys)]
 		if kp.Bits >= 1024 && round%2 == 1 && tier != "thorough" {
 			kp = keys[1]
 		}
+		// every third round the credential carries a revocation witness and the proof a non-revocation part (the size and
+		// range checks on the responses must not depend on that)
+		withNonrev := round%3 == 2
+		if withNonrev {
+			kp = rkeys[(round/3)%len(rkeys)]
+			if kp.Bits >= 1024 && tier != "thorough" && round%2 == 1 {
+				kp = rkeys[0]
+			}
+		}
 		order := new(gbig.Int).Mul(kp.Sk.PPrime, kp.Sk.QPrime)
 		nattr := 1 + rng.Intn(6)
 		secret := newSecret(rng)
-		cred := makeCredential(kp, secret, nattr, rng)
-		disclosed := randomSubset(rng, nattr)
+		var cred *gabi.Credential
+		var disclosed []int
+		if withNonrev {
+			if nattr < 2 {
+				nattr = 2
+			}
+			cred, _ = makeRevCredential(kp, secret, nattr, rng)
+			disclosed = randomSubset(rng, nattr-1)
+		} else {
+			cred = makeCredential(kp, secret, nattr, rng)
+			disclosed = randomSubset(rng, nattr)
+		}
 		ctx, nonce := rng.Bits(200), rng.Bits(80)
 		issig := rng.Bool()
-		b, err := cred.CreateDisclosureProofBuilder(disclosed, nil, false)
+		b, err := cred.CreateDisclosureProofBuilder(disclosed, nil, withNonrev)
 		if err != nil {
 			panic(err)
 		}
@@ -174,9 +194,13 @@ func suiteC01(s *Suite, rng *Rng, tier string) {
 		}
 		honest := pl[0].(*gabi.ProofD)
 		pks := []*gabikeys.PublicKey{kp.Pk}
+		ambiguous := false
 		run := func(kind string, p *gabi.ProofD, small bool) bool {
 			dump := L{dumpProofD(p, kp.Pk)}
-			_, acc, _ := verifyCase(s, fmt.Sprintf("%d:%s", kp.Bits, kind), small, pks, ctx, nonce, issig, nil, gabi.ProofList{p})
+			_, acc, amb := verifyCase(s, fmt.Sprintf("%d:%s", kp.Bits, kind), small, pks, ctx, nonce, issig, nil, gabi.ProofList{p})
+			if amb {
+				ambiguous = true // known finding C11:ambiguous-revocation-index: the verdict depends on map order
+			}
 			s.Nontrivial[S(dump)+kind] = true
 			if acc {
 				c01Oracle(s, p, cred, kind, L{kind, dumpPk(kp.Pk), dump, ctx, nonce, issig})
@@ -187,8 +211,11 @@ func suiteC01(s *Suite, rng *Rng, tier string) {
 		if small {
 			smallLeft--
 		}
-		if !run("honest", cloneProofD(honest), small) {
+		if !run("honest", cloneProofD(honest), small) && !ambiguous {
 			s.Violate("C01:honest-rejected", "honest disclosure proof rejected", L{dumpProofD(honest, kp.Pk)})
+		}
+		if ambiguous {
+			continue
 		}
 		c := honest.C
 		hidden := []int{}
@@ -283,6 +310,11 @@ func suiteC01(s *Suite, rng *Rng, tier string) {
 		// responses shifted by multiples of the group order, placed at the accept/reject boundary
 		max := new(gbig.Int).Sub(pow2(kp.Pk.Params.LmCommit+1), bi(1))
 		for _, i := range hidden {
+			if withNonrev && i == nattr {
+				// the response of the revocation attribute is also the alpha response of the non-revocation part: a shifted
+				// value is refused there, whatever its size
+				continue
+			}
 			r := honest.AResponses[i]
 			kmax := new(gbig.Int).Div(new(gbig.Int).Sub(max, r), order)
 			for _, dk := range []int64{-1, 0, 1, 2} {
@@ -320,5 +352,5 @@ func suiteC01(s *Suite, rng *Rng, tier string) {
 	s.Notes["rule"] = "credentials with 1..6 attributes (values 0, 1, 2^Lm-1, 2^Lm, oversized, random), random disclosure sets, " +
 		"keys of 128/256/1024 (+2048 thorough) bits; per honest proof: every single-field alteration, pairwise alterations, " +
 		"disclosed->hidden moves, every split x in {0,1,m-1,m,m+1,2^Lm} of every hidden attribute incl. the secret, " +
-		"responses shifted by k*ord at kmax-1..kmax+2 and below zero; non-trivial = every mutated proof; distinct by dump"
+		"responses shifted by k*ord at kmax-1..kmax+2 and below zero; every third round with a revocation witness and a non-revocation part; non-trivial = every mutated proof; distinct by dump"
 }
